@@ -16,7 +16,6 @@ import (
 	"slices"
 	"runtime"
 	"sort"
-	"strconv"
 	"strings"
 	"sync"
 	"sync/atomic"
@@ -70,6 +69,7 @@ type Thread struct {
 	named   bool
 	urgent  bool
 	suspended bool
+	sched   *Sched
 }
 
 type pendingOp struct {
@@ -210,16 +210,13 @@ func (s *Sched) Now() time.Duration { return time.Since(s.start) }
 
 // Go starts a named harness thread; it is gated from its first instruction.
 func (s *Sched) Go(name string, f func()) *Thread {
-	t := &Thread{Name: name, Role: "h:" + name, gate: make(chan struct{}, 1), harness: true, named: true}
+	t := &Thread{Name: name, Role: "h:" + name, gate: make(chan struct{}, 1), harness: true, named: true, sched: s}
 	s.mu.Lock()
 	t.ID = len(s.threads)
 	s.threads = append(s.threads, t)
 	s.mu.Unlock()
 	go func() {
-		t.goid = goid()
-		s.mu.Lock()
-		s.byGoid[t.goid] = t
-		s.mu.Unlock()
+		setGLS(t)
 		defer s.exit(t)
 		s.park(t, &pendingOp{kind: OpStart, obj: name})
 		f()
@@ -240,6 +237,14 @@ func (s *Sched) exit(t *Thread) {
 	delete(s.byGoid, t.goid)
 	s.mu.Unlock()
 	s.poke()
+}
+
+// EnterGo is called (by the overlay) as the first statement of every goroutine the package
+// starts: goroutines inherit the creator's label slot, which must not be mistaken for their own.
+func EnterGo() {
+	if t := getGLS(); t != nil {
+		setGLS(nil)
+	}
 }
 
 // RecoverGo is deferred (by the overlay) at the top of every goroutine the package starts: a
@@ -273,20 +278,19 @@ func (s *Sched) poke() {
 
 // EnterTimer names the calling goroutine as the callback of timer seq (vtime.AfterFunc).
 func (s *Sched) EnterTimer(seq int) func() {
-	g := goid()
 	s.mu.Lock()
 	n := s.timerFir[seq]
 	s.timerFir[seq] = n + 1
-	t := &Thread{Name: fmt.Sprintf("timer%d.%d", seq, n), Role: "timer", gate: make(chan struct{}, 1), goid: g, named: true}
+	t := &Thread{Name: fmt.Sprintf("timer%d.%d", seq, n), Role: "timer", gate: make(chan struct{}, 1), named: true, sched: s}
 	t.ID = len(s.threads)
 	s.threads = append(s.threads, t)
-	s.byGoid[g] = t
 	s.mu.Unlock()
+	setGLS(t)
 	return func() {
 		s.mu.Lock()
 		t.Done = true
-		delete(s.byGoid, g)
 		s.mu.Unlock()
+		setGLS(nil)
 		s.poke()
 	}
 }
@@ -337,15 +341,20 @@ func (s *Sched) NewTimerSeq() int {
 }
 
 func (s *Sched) cur() *Thread {
+	if t := getGLS(); t != nil && t.sched == s {
+		return t
+	}
+	// first hooked operation of a goroutine the scheduler has not seen yet
 	g := goid()
 	s.mu.Lock()
 	t := s.byGoid[g]
 	if t == nil {
-		t = &Thread{gate: make(chan struct{}, 1), goid: g, Role: role()}
+		t = &Thread{gate: make(chan struct{}, 1), goid: g, Role: role(), sched: s}
 		s.byGoid[g] = t
 		s.arrivals = append(s.arrivals, t)
 	}
 	s.mu.Unlock()
+	setGLS(t)
 	return t
 }
 
@@ -853,19 +862,6 @@ func (s *Sched) HeldClasses() []string {
 }
 
 // ---------------------------------------------------------------------------------
-
-func goid() uint64 {
-	var buf [64]byte
-	n := runtime.Stack(buf[:], false)
-	// "goroutine 123 [running..."
-	b := buf[10:n]
-	i := 0
-	for i < len(b) && b[i] >= '0' && b[i] <= '9' {
-		i++
-	}
-	id, _ := strconv.ParseUint(string(b[:i]), 10, 64)
-	return id
-}
 
 // role returns the outermost non-runtime function of the calling goroutine.
 func role() string {
